@@ -25,3 +25,73 @@ pub fn verif_ref_ram_bytes(code: u8) -> usize {
 pub fn verif_ref_kind(cart_type: u8) -> u8 {
   match cart_type { 0 => 0, 1 | 2 | 3 => 1, 0x11 | 0x12 | 0x13 => 3, _ => 255 }
 }
+
+#[cfg(all(kani, verif_c19))]
+mod verif_c19 {
+  use super::*;
+  use crate::vassert;
+
+  pub fn ref_checksum_ok(raw: &[u8; 80]) -> bool {
+    // header bytes 0x134..=0x14C are raw[0x34..=0x4c]; checksum byte 0x14D is raw[0x4d]
+    let mut x: u8 = 0;
+    let mut i = 0x34;
+    while i <= 0x4c { x = x.wrapping_sub(raw[i]).wrapping_sub(1); i += 1; }
+    x == raw[0x4d]
+  }
+
+  #[kani::proof]
+  #[kani::unwind(30)]
+  fn c19_checksum() {
+    let raw: [u8; 80] = kani::any();
+    let h = Header::verif_from_bytes(raw);
+    vassert!(h.valid_checksum() == ref_checksum_ok(&raw), "C19.checksum");
+    kani::cover!(ref_checksum_ok(&raw), "reached");
+  }
+
+  #[kani::proof]
+  #[kani::unwind(4)]
+  fn c19_size_tables() {
+    let raw: [u8; 80] = kani::any();
+    let h = Header::verif_from_bytes(raw);
+    let rom_code = raw[0x48];
+    let ram_code = raw[0x49];
+    vassert!(h.get_rom_bank_count() == verif_ref_rom_banks(rom_code), "C19.table.rom_banks");
+    vassert!(h.get_rom_size_bytes() == verif_ref_rom_banks(rom_code) * 16384, "C19.table.rom_bytes");
+    vassert!(h.get_ram_size_bytes() == verif_ref_ram_bytes(ram_code), "C19.table.ram_bytes");
+    kani::cover!(rom_code == 8, "reached");
+  }
+
+  /// Supported controller types build the matching controller (observed through its protocol).
+  #[kani::proof]
+  #[kani::unwind(4)]
+  fn c19_cart_kind() {
+    let t: u8 = kani::any();
+    let kind = verif_ref_kind(t);
+    kani::assume(kind != 255);
+    let h = Header::verif_with(t, 0, 0);
+    let mut c = h.create_cart_state();
+    // power-on: bank 1 / RAM bank 0 for every type
+    vassert!(c.get_rom_bank() == 1 && c.get_ram_bank() == 0, "C19.kind.power_on");
+    c.write_rom(0x2000, 0x45);
+    let b = c.get_rom_bank();
+    match kind {
+      0 => { vassert!(b == 1, "C19.kind.rom_only"); }
+      1 => { vassert!(b == 0x05, "C19.kind.mbc1_5bit"); }
+      _ => { vassert!(b == 0x45, "C19.kind.mbc3_7bit"); }
+    }
+    kani::cover!(kind == 3, "reached");
+  }
+
+  /// Unsupported types never yield a controller: construction does not return.
+  #[kani::proof]
+  #[kani::unwind(4)]
+  #[kani::should_panic]
+  fn c19_unsupported_type_terminates() {
+    let t: u8 = kani::any();
+    kani::assume(verif_ref_kind(t) == 255);
+    let h = Header::verif_with(t, 0, 0);
+    let _c = h.create_cart_state();
+    // reaching this point means an unsupported type was accepted
+  }
+  // VERIF-END verif_c19
+}
